@@ -12,6 +12,7 @@ import CharsetProof.Model.Md
 import CharsetProof.Model.Ranges
 import CharsetProof.Model.RangeRules
 import CharsetProof.Model.Coh
+import CharsetProof.Model.CharFlags
 import Std.Data.HashMap
 namespace Charset.Driver
 open Charset
@@ -260,6 +261,19 @@ def handle (line : String) : String :=
        | some r => "ok " ++ showCoh r
        | none => "ok E")
     | _, _, _, _ => "bad-op"
+  | ["flags", items] =>
+    -- new_mess_detector_character: flag words from primitive Unicode facts; item = cp:primbits:gc:script
+    let parse (it : String) : Option (Nat × CharFlags.Prim) :=
+      match (it.splitOn ":").mapM (·.toNat?) with
+      | some [cp, b, gc, sc] =>
+        some (cp, { ws := b.testBit 0, numeric := b.testBit 1, alpha := b.testBit 2, lower := b.testBit 3,
+                    upper := b.testBit 4, emoji := b.testBit 5, uideo := b.testBit 6, accent := b.testBit 7,
+                    gc := gc, script := sc })
+      | _ => none
+    match (items.splitOn ",").mapM parse with
+    | some l => "ok " ++ ",".intercalate (l.map (fun (cp, p) =>
+        toString (CharFlags.flagsOf p Gen.commonSafeAscii cp (unicodeRangeOf Gen.unicodeRanges cp))))
+    | none => "bad-op"
   | ["suspall"] =>
     -- is_suspiciously_successive_range on every pair of rows of the block table (id 0 = no range)
     let n := Gen.unicodeRanges.length
